@@ -74,7 +74,7 @@ def plant(rng, L, alpha, nsub, indels, over, at=None):
 
 def cases(rng, tier):
     C = []
-    n = 70 if tier == "quick" else 700
+    n = 70 if tier == "quick" else 360
     for i in range(n):
         kind = rng.choice(["dna", "dna", "protein"])
         alpha = gen.DNA if kind == "dna" else "DEFHIKLMPQRSVWY" + "ACGT"
@@ -119,7 +119,7 @@ def cases(rng, tier):
         C.append(dict(id="p%d" % i, a=a, b=b, p=p, type=ty, pens=pens, ka=ka, kb=kb, kind=kind, threads=rng.choice([1, 4])))
     # gap runs in the LONGER sequence (the shorter one carries an insertion and, elsewhere, a larger deletion), every type in turn:
     # these runs are the ones the Hirschberg recursion cuts through row by row
-    m = 70 if tier == "quick" else 600
+    m = 70 if tier == "quick" else 300
     for i in range(m):
         kind = "dna" if i % 2 else "protein"
         alpha = gen.DNA if kind == "dna" else "DEFHIKLMPQRSVWY" + "ACGT"
@@ -168,7 +168,7 @@ def cases(rng, tier):
     # a gap run in the longer sequence that CROSSES a split row of the recursion (rows = the shorter sequence, split rows are
     # L/2, L/4, ... on the left-most chain of blocks and L - L/2^k on the right-most one): the meetup's gb->gb transition,
     # which must cost the internal extension there (found by the thorough tier on the pinned tree: it cost tgpe)
-    m = 24 if tier == "quick" else 240
+    m = 24 if tier == "quick" else 160
     for i in range(m):
         kind = "dna" if i % 4 else "protein"
         alpha = gen.DNA if kind == "dna" else "DEFHIKLMPQRSVWY" + "ACGT"
